@@ -74,6 +74,35 @@ static int not_disconnecting (const void *v) {
 #define WAIT_FOR_NO_CHILDREN(pred_, n_) nsync_mu_wait (&(n_)->note_mu, &pred_, (n_), NULL)
 #define WAKEUP_NO_CHILDREN(n_) do { } while (0)
 
+/* The children list of a note, as the thread disconnecting the note last saw it. */
+struct children_seen {
+	nsync_note n;
+	nsync_dll_list_ children;
+};
+
+/* Return whether the children list of the note in *v is no longer what it
+   was when recorded in *v.  Assumes n->note_mu held. */
+static int children_changed (const void *v) {
+	const struct children_seen *s = (const struct children_seen *) v;
+	return (s->n->children != s->children);
+}
+
+/* Called by a thread that has just dealt with every child of *n that was not
+   being disconnected by another thread.  If children remain, wait until the
+   list changes, and return its first element (NULL if it is empty) so that
+   the caller looks at the list again:  a child that was being freed may
+   meanwhile have handed its own children to *n.
+   n->note_mu is held;  it is released while waiting.  */
+static nsync_dll_element_ *wait_for_children_to_change (nsync_note n) {
+	struct children_seen seen;
+	seen.n = n;
+	seen.children = n->children;
+	if (!nsync_dll_is_empty_ (seen.children)) {
+		nsync_mu_wait (&n->note_mu, &children_changed, &seen, NULL);
+	}
+	return (nsync_dll_first_ (n->children));
+}
+
 /*
 // These lines can be used in place of those above if conditional critical
 // sections have been removed from the source.
@@ -107,6 +136,9 @@ static void note_notify_child (nsync_note n, nsync_note parent) {
 				note_notify_child (child, n);
 			}
 			nsync_mu_unlock (&child->note_mu);
+			if (next == NULL) { /* end of list; start again if any are left */
+				next = wait_for_children_to_change (n);
+			}
 		}
 		WAIT_FOR_NO_CHILDREN (no_children, n);
 		if (parent != NULL) {
@@ -233,6 +265,9 @@ void nsync_note_free (nsync_note n) {
 			}
 		}
 		nsync_mu_unlock (&child->note_mu);
+		if (next == NULL) { /* end of list; start again if any are left */
+			next = wait_for_children_to_change (n);
+		}
 	}
 	WAIT_FOR_NO_CHILDREN (no_children, n);
 	if (parent != NULL) {
